@@ -65,15 +65,15 @@ type genState struct {
 }
 
 func genKey(t *rapid.T, p *Profile) []byte {
-	r := rapid.IntRange(0, 99).Draw(t, "keyclass")
+	r := uni(t, 100, "keyclass")
 	switch {
 	case r < 55:
-		return KeyPool[rapid.IntRange(0, 7).Draw(t, "hotkey")]
+		return KeyPool[uni(t, 8, "hotkey")]
 	case r < 78:
-		return KeyPool[rapid.IntRange(0, len(KeyPool)-1).Draw(t, "poolkey")]
+		return KeyPool[uni(t, len(KeyPool), "poolkey")]
 	case r < 97 || !p.BigKeys:
 		return rapid.SliceOfN(rapid.Byte(), 1, 12).Draw(t, "key")
-	case r < 99 || rapid.IntRange(0, 5).Draw(t, "huge") != 3:
+	case r < 99 || uni(t, 6, "huge") != 3:
 		n := rapid.SampledFrom([]int{255, 256, 300}).Draw(t, "keylen")
 		return bytes.Repeat([]byte{rapid.Byte().Draw(t, "fill")}, n)
 	default:
@@ -91,12 +91,12 @@ var hostileVals = [][]byte{
 }
 
 func genVal(t *rapid.T, p *Profile) []byte {
-	r := rapid.IntRange(0, 99).Draw(t, "valclass")
+	r := uni(t, 100, "valclass")
 	switch {
 	case r < 88:
 		return rapid.SliceOfN(rapid.Byte(), 0, 24).Draw(t, "val")
 	case r < 94 && p.Hostile:
-		return hostileVals[rapid.IntRange(0, len(hostileVals)-1).Draw(t, "hostile")]
+		return hostileVals[uni(t, len(hostileVals), "hostile")]
 	case r < 96 && p.BigVals:
 		return bytes.Repeat([]byte{rapid.Byte().Draw(t, "fillv")}, 4096)
 	default:
@@ -105,7 +105,7 @@ func genVal(t *rapid.T, p *Profile) []byte {
 }
 
 func genPrio(t *rapid.T) int32 {
-	r := rapid.IntRange(0, 99).Draw(t, "prioclass")
+	r := uni(t, 100, "prioclass")
 	switch {
 	case r < 65:
 		return int32(rapid.IntRange(0, 3).Draw(t, "prio"))
@@ -117,16 +117,16 @@ func genPrio(t *rapid.T) int32 {
 }
 
 func genTarget(t *rapid.T, p *Profile, o *Op) {
-	r := rapid.IntRange(0, 99).Draw(t, "tclass")
+	r := uni(t, 100, "tclass")
 	switch {
 	case r < 8:
 		o.Nil = true
 	case r < 16:
 		o.Key = []byte{}
 	case r < 70:
-		o.Key = KeyPool[rapid.IntRange(0, len(KeyPool)-1).Draw(t, "tpool")]
+		o.Key = KeyPool[uni(t, len(KeyPool), "tpool")]
 	case r < 85:
-		k := KeyPool[rapid.IntRange(0, len(KeyPool)-1).Draw(t, "tpool2")]
+		k := KeyPool[uni(t, len(KeyPool), "tpool2")]
 		o.Key = append(append([]byte{}, k...), 0) // just above a pool key
 	default:
 		o.Key = rapid.SliceOfN(rapid.Byte(), 1, 6).Draw(t, "tkey")
@@ -135,7 +135,7 @@ func genTarget(t *rapid.T, p *Profile, o *Op) {
 
 func (p *Profile) drawKind(t *rapid.T) string {
 	p.init()
-	r := rapid.IntRange(0, p.total-1).Draw(t, "kind")
+	r := uni(t, p.total, "kind")
 	for _, e := range p.Kinds {
 		if r < e.w {
 			return e.k
@@ -151,10 +151,10 @@ func (p *Profile) genOpKind(t *rapid.T, kind string, gs *genState, depth int) Op
 	if nc <= 0 {
 		nc = 1
 	}
-	coll := func() { o.C = rapid.IntRange(0, nc-1).Draw(t, "coll") }
+	coll := func() { o.C = uni(t, nc, "coll") }
 	handle := func() {
 		if p.Snaps {
-			o.S = rapid.IntRange(0, 4).Draw(t, "handle")
+			o.S = uni(t, 5, "handle")
 		}
 	}
 	switch kind {
@@ -191,7 +191,7 @@ func (p *Profile) genOpKind(t *rapid.T, kind string, gs *genState, depth int) Op
 		o.WV = rapid.Bool().Draw(t, "wv")
 	case OpBadSet:
 		coll()
-		o.Flag = rapid.IntRange(0, 4).Draw(t, "bad")
+		o.Flag = uni(t, 5, "bad")
 		o.Prio = int32(rapid.IntRange(0, 5).Draw(t, "neg"))
 	case OpMin, OpMax:
 		coll()
@@ -205,17 +205,17 @@ func (p *Profile) genOpKind(t *rapid.T, kind string, gs *genState, depth int) Op
 	case OpVisit:
 		coll()
 		handle()
-		o.Flag = rapid.IntRange(0, NumVisitAPIs-1).Draw(t, "api")
+		o.Flag = uni(t, NumVisitAPIs, "api")
 		genTarget(t, p, &o)
 		o.WV = rapid.Bool().Draw(t, "wv")
-		if rapid.IntRange(0, 9).Draw(t, "stopclass") < 4 {
+		if uni(t, 10, "stopclass") < 4 {
 			o.N = rapid.IntRange(1, 6).Draw(t, "stop")
 		}
-		if p.Nested && depth == 0 && o.Flag < VIterAscend && rapid.IntRange(0, 9).Draw(t, "nest") < 5 {
+		if p.Nested && depth == 0 && o.Flag < VIterAscend && uni(t, 10, "nest") < 5 {
 			o.At = rapid.IntRange(0, 3).Draw(t, "at")
 			n := rapid.IntRange(1, 3).Draw(t, "nsub")
 			for i := 0; i < n; i++ {
-				k := rapid.SampledFrom(nestedKinds).Draw(t, "subkind")
+				k := nestedKinds[uni(t, len(nestedKinds), "subkind")]
 				o.Sub = append(o.Sub, p.genOpKind(t, k, gs, depth+1))
 			}
 		}
@@ -223,7 +223,7 @@ func (p *Profile) genOpKind(t *rapid.T, kind string, gs *genState, depth int) Op
 		coll()
 		handle()
 		o.WV = rapid.Bool().Draw(t, "wv")
-		o.Flag = rapid.IntRange(0, 3).Draw(t, "mangler")
+		o.Flag = uni(t, 4, "mangler")
 		o.N = rapid.IntRange(0, 1000).Draw(t, "mseed")
 	case OpRandom:
 		coll()
@@ -233,28 +233,28 @@ func (p *Profile) genOpKind(t *rapid.T, kind string, gs *genState, depth int) Op
 		o.N = rapid.IntRange(1, 12).Draw(t, "n")
 	case OpReopen:
 		if !p.ReopenNoDrop {
-			o.Flag = rapid.IntRange(0, 1).Draw(t, "drop")
+			o.Flag = uni(t, 2, "drop")
 		}
 	case OpSetColl:
 		coll()
 		if p.Cmps {
-			o.Flag = rapid.IntRange(0, NumCmp-1).Draw(t, "cmp")
+			o.Flag = uni(t, NumCmp, "cmp")
 		}
-		o.N = rapid.IntRange(0, 1).Draw(t, "nilcmp")
+		o.N = uni(t, 2, "nilcmp")
 	case OpRmColl, OpWrite:
 		coll()
 	case OpSnap:
-		o.S = rapid.IntRange(0, 4).Draw(t, "src")
+		o.S = uni(t, 5, "src")
 	case OpSnapClose, OpSnapRev:
-		o.S = rapid.IntRange(1, 4).Draw(t, "snap")
+		o.S = 1 + uni(t, 4, "snap")
 	case OpSnapBad:
-		o.S = rapid.IntRange(1, 4).Draw(t, "snap")
+		o.S = 1 + uni(t, 4, "snap")
 		coll()
-		o.Flag = rapid.IntRange(0, 4).Draw(t, "what")
+		o.Flag = uni(t, 5, "what")
 		o.Key = genKey(t, p)
 	case OpCopyTo:
 		handle()
-		r := rapid.IntRange(0, 9).Draw(t, "feclass")
+		r := uni(t, 10, "feclass")
 		switch {
 		case r < 2:
 			o.N = rapid.IntRange(-1, 0).Draw(t, "fe0")
@@ -264,14 +264,14 @@ func (p *Profile) genOpKind(t *rapid.T, kind string, gs *genState, depth int) Op
 			o.N = rapid.IntRange(7, 40).Draw(t, "febig")
 		}
 		if o.N <= 0 {
-			o.Flag = rapid.IntRange(0, 1).Draw(t, "dstmem")
+			o.Flag = uni(t, 2, "dstmem")
 		}
 	case OpChurn:
 		o.N = rapid.IntRange(4, 40).Draw(t, "n")
 	case OpIter:
 		coll()
 		handle()
-		o.Flag = rapid.IntRange(0, 1).Draw(t, "dir")
+		o.Flag = uni(t, 2, "dir")
 		genTarget(t, p, &o)
 		if o.Nil {
 			o.Nil = false
@@ -280,7 +280,7 @@ func (p *Profile) genOpKind(t *rapid.T, kind string, gs *genState, depth int) Op
 		o.WV = rapid.Bool().Draw(t, "wv")
 		if depth == 0 {
 			o.Val = rapid.SliceOfN(rapid.ByteRange(0, 11), 0, 14).Draw(t, "script")
-			n := rapid.IntRange(0, 9).Draw(t, "extra")
+			n := uni(t, 10, "extra")
 			for i := 0; i < n-7; i++ {
 				o.Sub = append(o.Sub, p.genOpKind(t, OpIter, gs, depth+1))
 			}
@@ -302,25 +302,25 @@ func GenCase(p *Profile) *rapid.Generator[Case] {
 	return rapid.Custom(func(t *rapid.T) Case {
 		var c Case
 		c.Cfg.Profile = p.Name
-		c.Cfg.Mem = p.MemPct > 0 && rapid.IntRange(0, 99).Draw(t, "mem") < p.MemPct
+		c.Cfg.Mem = p.MemPct > 0 && uni(t, 100, "mem") < p.MemPct
 		c.Cfg.RandSeed = int64(rapid.IntRange(1, 1<<30).Draw(t, "randseed"))
 		c.Cfg.CheckEvery = 1
 		endOnly := p.EndOnly
 		if endOnly == 0 {
 			endOnly = 55
 		}
-		if rapid.IntRange(0, 99).Draw(t, "endonly") < endOnly {
+		if uni(t, 100, "endonly") < endOnly {
 			c.Cfg.CheckEvery = rapid.SampledFrom([]int{0, 0, 3, 7}).Draw(t, "checkevery")
 		}
 		if p.Cmps {
-			c.Cfg.DefCmp = rapid.IntRange(0, NumCmp-1).Draw(t, "defcmp")
+			c.Cfg.DefCmp = uni(t, NumCmp, "defcmp")
 		}
 		if p.Stores > 0 {
 			c.Cfg.Stores = rapid.IntRange(0, p.Stores).Draw(t, "stores")
 		}
 		gs := &genState{prios: map[string]int32{}}
 		if p.Monotone > 0 {
-			gs.mono = rapid.IntRange(0, 99).Draw(t, "mono") < p.Monotone
+			gs.mono = uni(t, 100, "mono") < p.Monotone
 			c.Cfg.Monotone = gs.mono
 		}
 		n := rapid.IntRange(p.MinOps, p.MaxOps).Draw(t, "nops")
@@ -333,14 +333,36 @@ func GenCase(p *Profile) *rapid.Generator[Case] {
 			c.Ops = append(c.Ops, p.genOpKind(t, k, gs, 0))
 			// Evictions only bite on flushed items: follow a Flush by a burst of
 			// evictions in a good share of cases so that evicted states are common.
-			if k == OpFlush && p.hasKind(OpEvict) && rapid.IntRange(0, 9).Draw(t, "evictafterflush") < 4 {
+			if k == OpFlush && p.hasKind(OpEvict) && uni(t, 10, "evictafterflush") < 4 {
 				nc := p.NColls
 				if nc <= 0 {
 					nc = 1
 				}
-				c.Ops = append(c.Ops, Op{K: OpEvict, C: rapid.IntRange(0, nc-1).Draw(t, "evictcoll"), N: rapid.IntRange(2, 12).Draw(t, "evictn"), Flag: 1})
+				c.Ops = append(c.Ops, Op{K: OpEvict, C: uni(t, nc, "evictcoll"), N: rapid.IntRange(2, 12).Draw(t, "evictn"), Flag: 1})
 			}
 		}
 		return c
 	})
+}
+
+// uni draws a uniformly distributed integer in [0,n).  rapid's IntRange (and
+// SampledFrom) favour small values and the range boundaries, which skews
+// weighted choices such as the op kind; booleans are uniform, so the choice is
+// assembled from boolean draws (5 spare bits keep the modulo bias below 4%).
+// Shrinking clears bits, i.e. still moves towards the first alternatives.
+func uni(t *rapid.T, n int, label string) int {
+	if n <= 1 {
+		return 0
+	}
+	nb := 5
+	for 1<<(nb-5) < n {
+		nb++
+	}
+	v := 0
+	for i := 0; i < nb; i++ {
+		if rapid.Bool().Draw(t, label) {
+			v |= 1 << i
+		}
+	}
+	return v % n
 }
